@@ -253,6 +253,29 @@ func c04(c *Ctx) {
 			}
 		}
 		c.R.Check(okCred, load.FuncName(fc)+": req.Credentials", c.pos(run.Pos()), "credentials are keyed by the step's own credential names", "credentials are not taken from the step's own credentials list")
+		// … all of them: the loop over the step's credentials is left early only with an error
+		for _, b := range fc.Blocks {
+			for _, in := range b.Instrs {
+				mu, ok := in.(*ssa.MapUpdate)
+				if !ok || !strings.HasSuffix(mu.Map.Type().String(), "v1.Credentials") {
+					continue
+				}
+				loop := cfgx.LoopOf(mu.Block())
+				if loop == nil || loop[run.Block()] {
+					continue // not in a loop of its own below the step loop
+				}
+				_, early := cfgx.OnlyHeaderExits(loop)
+				bad := ""
+				for _, e := range early {
+					for _, r := range cfgx.ReturnsReachable([]cfgx.Edge{e}, nil) {
+						if nonNilError(r) != "nonnil" {
+							bad = c.pos(firstPos(e.From))
+						}
+					}
+				}
+				c.R.Check(bad == "", load.FuncName(fc)+": every credential of the step", c.pos(mu.Pos()), "the loop over the step's credentials ends early only with an error", "the loop over the step's credentials can be left early (at "+bad+") without an error: credentials listed after that entry are never loaded")
+			}
+		}
 		// own credentials only: the map a step's credentials are stored in is
 		// created in this iteration (nothing carried over from earlier steps),
 		// and so is the request that carries it.
